@@ -356,8 +356,10 @@ pub fn run_batch(spec: &CheckSpec, thorough: bool, base_seed: u64, runs_override
     profiles.extend_from_slice(spec.more_profiles);
     let mk = spec.mk;
     let extra = spec.extra;
+    let panicked: Arc<Mutex<Vec<u64>>> = Arc::new(Mutex::new(Vec::new()));
     let mut handles = Vec::new();
     for _ in 0..threads {
+        let panicked = panicked.clone();
         let next = next.clone();
         let stop = stop.clone();
         let agg = agg.clone();
@@ -381,7 +383,16 @@ pub fn run_batch(spec: &CheckSpec, thorough: bool, base_seed: u64, runs_override
                         }
                         let seed = base_seed.wrapping_add(i);
                         let profile = profiles[(i % profiles.len() as u64) as usize];
-                        let mut r = run_one(seed, profile, thorough, mk, true);
+                        // a panic inside the simulator itself (not inside the program under test, which is caught at the
+                        // instruction boundary) is a harness error of this run: remember the seed and go on, so that a
+                        // violation found by another run is still reported
+                        let mut r = match std::panic::catch_unwind(|| run_one(seed, profile, thorough, mk, true)) {
+                            Ok(r) => r,
+                            Err(_) => {
+                                panicked.lock().unwrap().push(seed);
+                                continue;
+                            }
+                        };
                         runs += 1;
                         ok += r.landed_ok;
                         fail += r.landed_fail;
@@ -538,6 +549,14 @@ pub fn run_batch(spec: &CheckSpec, thorough: bool, base_seed: u64, runs_override
     if runs == 0 {
         eprintln!("HARNESS ERROR: no run executed");
         return 2;
+    }
+    let mut p = panicked.lock().unwrap().clone();
+    p.sort();
+    if !p.is_empty() {
+        eprintln!("HARNESS ERROR: the simulator panicked in {} run(s), seeds {:?}", p.len(), &p[..p.len().min(8)]);
+        if exit == 0 {
+            return 2;
+        }
     }
     exit
 }
